@@ -1180,6 +1180,22 @@ func c16Gravity(st *ssa.Store, ev *c16Eval) (d int64, cb c16Iv, prodT types.Type
 	if !ok || mul.Op != token.MUL {
 		return 0, cb, nil, "the dividend is not a product"
 	}
+	// the product must survive until the division: the narrowest type it passes through counts
+	narrow := mul.Type()
+	for v := quo.X; ; {
+		cv, isConv := v.(*ssa.Convert)
+		if !isConv {
+			if ct, isCT := v.(*ssa.ChangeType); isCT {
+				v = ct.X
+				continue
+			}
+			break
+		}
+		if types.SizesFor("gc", "amd64").Sizeof(cv.Type()) < types.SizesFor("gc", "amd64").Sizeof(narrow) {
+			narrow = cv.Type()
+		}
+		v = cv.X
+	}
 	a, b := stripConv(mul.X), stripConv(mul.Y)
 	if !isE(a) {
 		a, b = b, a
@@ -1202,7 +1218,7 @@ func c16Gravity(st *ssa.Store, ev *c16Eval) (d int64, cb c16Iv, prodT types.Type
 	if iv.lo <= r.lo || iv.hi >= r.hi {
 		return 0, cb, nil, fmt.Sprintf("the clamped bonus is not bounded (range %s)", iv)
 	}
-	return d, iv, mul.Type(), ""
+	return d, iv, narrow, ""
 }
 
 // ---------------------------------------------------------------- R1 bands
@@ -1910,6 +1926,9 @@ func init() {
 		Mutant{Name: "C16.R2-continuation-divisor-doubled", Prop: "C16", File: "heur/cont.go",
 			Old: "/int(MaxHistory))", New: "/int(2*MaxHistory))",
 			Expect: "C16.R2/heur.(*Continuation).Add#bound<=MaxHistory"},
+		Mutant{Name: "C16.R2-history-product-truncated-before-division", Prop: "C16", File: "heur/hist.go",
+			Old: "Score(int(h.data[stm][from][to])*int(Abs(clampedBonus))/int(MaxHistory))", New: "Score(int(h.data[stm][from][to])*int(Abs(clampedBonus)))/MaxHistory",
+			Expect: "C16.R2/heur.(*History).Add#product-width"},
 		Mutant{Name: "C16.R2-history-product-in-int16", Prop: "C16", File: "heur/hist.go",
 			Old: "Score(int(h.data[stm][from][to])*int(Abs(clampedBonus))/int(MaxHistory))", New: "h.data[stm][from][to]*Abs(clampedBonus)/MaxHistory",
 			Expect: "C16.R2/heur.(*History).Add#product-width"},
